@@ -1,7 +1,7 @@
 """C04: resynchronisation and bounded retry."""
 from lib import script
 
-THEOREMS = ["C04_never_more_than_8", "C04_frames_written", "C04_value_at_once"]
+THEOREMS = ["C04_refines", "C04_success", "C04_gives_up", "C04_noise_fails", "C04_idle_flush", "C04_never_more_than_8", "C04_frames_written", "C04_value_at_once"]
 
 
 def run(res, args):
@@ -13,4 +13,4 @@ def run(res, args):
                     "Classes for C04: all reaction sequences over {silence, noise, async, bad checksum, bad hex, foreign address, partial, "
                     "several frames, short response} up to length 2 (quick) / 4 (thorough) followed by the good frame, random sequences up to "
                     "length 9, stale bytes in the port and in the reader buffer with idle/busy call histories, stale data before the first call.",
-                    partial=["refinement of the concrete driver (events, bufio, fuel) to the abstract line machine is checked on every case, not yet proved"])
+                    partial=["the refinement theorem covers scripts without empty reads (0,nil) and without no-progress ports; those are exercised by the judge and bounded by C06"])
